@@ -97,6 +97,28 @@ def run_gen():
     return rep
 
 
+def import_closure(modules, extra_files=("Driver.lean",)):
+    """all SCoda.* modules the given modules (and the driver) import, transitively — what a property's check depends on"""
+    seen = set()
+    todo = list(modules)
+    for f in extra_files:
+        try:
+            todo += re.findall(r"^import (SCoda\.\S+)", open(os.path.join(LEAN_DIR, f)).read(), flags=re.M)
+        except OSError:
+            pass
+    while todo:
+        m = todo.pop()
+        if m in seen:
+            continue
+        seen.add(m)
+        path = os.path.join(LEAN_DIR, *m.split(".")) + ".lean"
+        try:
+            todo += re.findall(r"^import (SCoda\.\S+)", open(path).read(), flags=re.M)
+        except OSError:
+            pass
+    return seen
+
+
 def lake_build(targets, clean=False):
     """returns (ok, output)"""
     if clean:
